@@ -120,8 +120,31 @@ def r3(prog, rep):
     # the caller unpacks in the same order
     g = prog.func(MESH, "MeshRegion.addPointAtWallToContours")
     src = T(mod, g.node)
-    ok = K("self.contours=[x[0]forxinmap_result]") in src and K("intersect_info_list=[x[1:]forxinmap_result]") in src and \
-        K("(lower_intersect_index,lower_intersect,upper_intersect_index,upper_intersect,)=intersect_info") in src
+    names4 = ["lower_intersect_index", "lower_intersect", "upper_intersect_index", "upper_intersect"]
+
+    def name_list(t):
+        return [e.id if isinstance(e, ast.Name) else ("*" + e.value.id if isinstance(e, ast.Starred) and isinstance(e.value, ast.Name) else "?") for e in t.elts] if isinstance(t, ast.Tuple) else None
+
+    tuples = []
+    for n_ in ast.walk(g.node):
+        if isinstance(n_, ast.Assign):
+            tuples += [t for t in n_.targets]
+        elif isinstance(n_, (ast.For, ast.comprehension)):
+            tuples.append(n_.target)
+    flat = []
+    for t in tuples:
+        for x in ast.walk(t):
+            if isinstance(x, ast.Tuple):
+                flat.append(name_list(x))
+    unpack_ok = names4 in flat or any(l and l[1:] == names4 for l in flat if l)
+    # element 0 is the contour: `[r[0] for r in map_result]` + `[r[1:] ...]`, or `for c, *rest in map_result`
+    first = any(isinstance(c_, (ast.ListComp, ast.GeneratorExp)) and isinstance(c_.elt, ast.Subscript) and isinstance(c_.elt.slice, ast.Constant) and c_.elt.slice.value == 0
+                and isinstance(c_.elt.value, ast.Name) and isinstance(c_.generators[0].target, ast.Name) and c_.elt.value.id == c_.generators[0].target.id
+                and T(mod, c_.generators[0].iter) == "map_result" for c_ in ast.walk(g.node))
+    rest = any(isinstance(c_, (ast.ListComp, ast.GeneratorExp)) and isinstance(c_.elt, ast.Subscript) and T(mod, c_.elt.slice) == K("1:")
+               and T(mod, c_.generators[0].iter) == "map_result" for c_ in ast.walk(g.node))
+    starred = any(l and len(l) == 2 and l[1].startswith("*") for l in flat if l) or any(l and len(l) == 5 and l[1:] == names4 for l in flat if l)
+    ok = unpack_ok and ((first and rest) or starred)
     rep.ob("R3", "the caller unpacks the result in the same order", ok, g.site(), "", key="refined/unpack")
 
 
